@@ -1553,7 +1553,7 @@ class MacroFunction(Macro):
                         nexttok = input_args[argidx][0]  # Unexpanded arg
                     except ValueError:
                         nexttok = [nexttok]
-                    if len(last) > 0:
+                    if len(last) > 0 and len(nexttok) > 0:
                         lex = Lexer(last[-1].token + nexttok[0].token)
                         tok = lex.tokenize_one()
                         if tok is None:
@@ -1568,6 +1568,9 @@ class MacroFunction(Macro):
                             toadd[0].prev_white = prev_white
                         res_tokens.extend(toadd)
                     else:
+                        # An empty argument next to ## leaves the other
+                        # operand unchanged
+                        res_tokens.extend(last)
                         res_tokens.extend(nexttok)
                     last_cat = True
                 elif tok.token == "#":
